@@ -47,6 +47,7 @@ def gen_case(r, tier, idx):
     gamma = Fraction(r.choice([0.5, 0.875, 1.0, 0.9900000095367432]))
     T = r.randint(8, 14) if tier == "quick" else r.randint(20, 30)
     squash_on = "sq" in ws
+    fd = r.choice([0.0, 0.3, 1.0, 1.0])       # how often the agent asks for an episode end through action[1]
     clip_outside_squash = squash_on and "clip" in ws and ws.index("clip") > ws.index("sq")
     clipping = squash_on or "clip" in ws or "ns" in ws
     acts = []
@@ -59,18 +60,18 @@ def gen_case(r, tier, idx):
                     x = r.random()
                     m = F(r.choice(BIG))
                     return m if x < p_hi else (-m if x < p_hi + p_lo else F(0))
-                a = [one(0.3, 0.3), one(0.18, 0.08)]
+                a = [one(0.3, 0.3), one(0.18 * fd, 0.08 * fd)]
             else:
-                def one(d, p_hi, p_lo):
+                def one(d, p_hi, p_lo, f):
                     x = r.random()
                     if x < p_hi: return hi[d]
                     if x < p_hi + p_lo: return lo[d]
-                    if clipping and x < p_hi + p_lo + 0.12: return F(r.choice([-1, 1]) * r.choice(BIG))
-                    if x < p_hi + p_lo + 0.2:                # out of range (unclipped stacks keep it small: exact float32 sums)
+                    if clipping and x < p_hi + p_lo + 0.12 * f: return F(r.choice([-1, 1]) * r.choice(BIG))
+                    if x < p_hi + p_lo + 0.2 * f:            # out of range (unclipped stacks keep it small: exact float32 sums)
                         return (hi[d] + Fraction(r.randint(1, 64), 8)) if r.random() < 0.5 else (lo[d] - Fraction(r.randint(1, 64), 8))
                     n = int((hi[d] - lo[d]) * 8)
-                    return lo[d] + Fraction(r.randint(0, n), 8)
-                a = [one(0, 0.1, 0.1), one(1, 0.12, 0.06)]
+                    return lo[d] + Fraction(r.randint(1, n - 1), 8)
+                a = [one(0, 0.1, 0.1, 1.0), one(1, 0.12 * fd, 0.06 * fd, fd)]
             row.append(a)
         acts.append(row)
     return dict(rs=rs, ts=ts, us=us, lo=lo, hi=hi, ws=ws, vws=vws, B=B, gamma=gamma, acts=acts,
@@ -212,7 +213,7 @@ def impl_run(c):
         kidx = [Bp + b for b in range(B)]
         kkey = onp.array(keys)
         keymap = {kidx[b]: tuple(int(x) for x in kkey[b]) for b in range(B)}
-        need = {kidx[b]: kkey[b] for b in range(B)}          # positions whose reset draw the model needs
+        need = {kidx[b]: kkey[b].copy() for b in range(B)}          # positions whose reset draw the model needs
         fresh = "an" in c["ws"]
         for row in c["acts"]:
             a = jnp.array([[float(x) for x in aa] for aa in row], jnp.float32)
@@ -273,19 +274,20 @@ def cmp_tol(name, impl, z, tol):
 
 def compare(c, trace, model, keymap):
     """first difference between the implementation's trace and the model's, or None.  Returns (signature, text)"""
-    (v0, ob0, i0), steps = model
+    # Coq prints left-nested pairs flat: (envs, nobs, nrew, obs, infos, steps); a step is (envs, nobs, nrew, obs, rew, te, tr, infos)
+    g0, no0, nr0, ob0, i0, steps = model
     nobs_on, nrew_on = "nobs" in c["vws"], "nrew" in c["vws"]
-    mrecs = [(v0, ob0, None, None, None, i0)] + [tuple(s) for s in steps]
+    mrecs = [(g0, no0, nr0, ob0, None, None, None, i0)] + [tuple(s) for s in steps]
     for n, (rec, mr) in enumerate(zip(trace, mrecs)):
-        v, ob, rw, te, tr, inf = mr
-        genvs, gnobs, gnrew = v
+        genvs, gnobs, gnrew, ob, rw, te, tr, inf = mr
         where = "reset" if n == 0 else f"step {n}"
         if n > 0:
             for b in range(c["B"]):
                 if rec["te"][b] != te[b] or rec["tr"][b] != tr[b]:
                     return "flags", f"{where} env {b}: terminated/truncated {rec['te'][b]}/{rec['tr'][b]} vs model {te[b]}/{tr[b]}"
         for b in range(c["B"]):
-            core, kidx, lg = genvs[b]
+            ct, cacc, csid, kidx, lg = genvs[b]
+            core = (ct, cacc, csid)
             e = rec["envs"][b]
             if tuple(core) != e["core"]:
                 return "state", f"{where} env {b}: environment state (t, acc, script) {e['core']} vs model {tuple(core)}"
@@ -343,7 +345,7 @@ def law_checks(c, trace):
         for n in range(1, len(trace)):
             rec = trace[n]; prev = trace[n - 1]
             done = rec["te"][b] or rec["tr"][b]
-            if clipping and "nobs" not in c["vws"]:
+            if clipping and "nobs" not in c["vws"] and not (done and ("af" in ws or "an" in ws)):
                 for d in range(2):
                     if not (c["lo"][d] <= rec["obs"][b][2 + d] <= c["hi"][d]):
                         out.append(("action-out-of-bounds", f"step {n} env {b}: the wrapped environment received action[{d}] = "
@@ -553,7 +555,9 @@ def env_graph_check(chk, steps):
     world.connect(agent, window=2, blocking=False, delay_dist=Deterministic(1 / 64))
     agent.connect(world, window=1, blocking=False, skip=True, delay_dist=Deterministic(1 / 64))
     nodes = {"agent": agent, "world": world}
-    g = Graph(nodes=nodes, supervisor=agent, graphs_raw=generate_graphs(nodes, 3.0, num_episodes=1))
+    import contextlib, io
+    with contextlib.redirect_stderr(io.StringIO()), contextlib.redirect_stdout(io.StringIO()):
+        g = Graph(nodes=nodes, supervisor=agent, graphs_raw=generate_graphs(nodes, 3.0, num_episodes=1))
 
     class E(rl.Environment):
         def get_output(self, gs, a): return Arr(a)
